@@ -3201,6 +3201,16 @@ impl ModuleSourceAndInfo {
       Self::Wasm { source, .. } => source,
     }
   }
+
+  /// The bytes as the loader supplied them, when they can still be told
+  /// from the decoded text.
+  pub fn original_bytes(&self) -> Option<Arc<[u8]>> {
+    match self {
+      Self::Json { source, .. } => source.try_get_original_bytes(),
+      Self::Js { source, .. } => source.try_get_original_bytes(),
+      Self::Wasm { source, .. } => Some(source.clone()),
+    }
+  }
 }
 
 pub(crate) struct ParseModuleAndSourceInfoOptions<'a> {
@@ -6563,12 +6573,17 @@ impl<'a, 'graph> Builder<'a, 'graph> {
           && let Some(locker) = &mut self.locker
             && !locker.has_remote_checksum(&specifier)
         {
-          locker.set_remote_checksum(
-            &specifier,
-            LoaderChecksum::new(LoaderChecksum::r#gen(
-              module_source_and_info.source_bytes(),
-            )),
-          );
+          // the checksum is of the bytes the loader supplied (a stripped
+          // byte order mark included), because that is what the loader
+          // verifies it against on the next run
+          let checksum = match module_source_and_info.original_bytes() {
+            Some(bytes) => LoaderChecksum::r#gen(&bytes),
+            None => {
+              LoaderChecksum::r#gen(module_source_and_info.source_bytes())
+            }
+          };
+          locker
+            .set_remote_checksum(&specifier, LoaderChecksum::new(checksum));
         }
 
         let module_slot =
